@@ -25,6 +25,7 @@
      450 = 401/402 inside the window of finding C04-newalloc-after-completed (DESIGN 7 #13 seen from the shim)
      451 = 494 inside the window of finding C04-timeout-drops-inflight-ask
      454 = 401 / 495 inside the window of finding C04-released-ask-bound-by-swap
+     456 = 411 inside the window of finding C04-stale-request-after-timeout-release
      455 = protocol / correspondence failure after the duplicate-key state of finding C04-update-after-timeout-duplicates-key
      453 = 412 inside the window of finding C04-rejected-app-sets-queue-limits *)
 From Coq Require Import List ZArith NArith Bool.
@@ -126,7 +127,25 @@ Definition flag (idx kind : N) (ok : bool) : list (N * N) := if ok then [] else 
 Fixpoint run_items (m : mstate) (t : list item) : mres :=
   match t with [] => MOk m | it :: r => match mon_step m it with MOk m' => run_items m' r | MErr c => MErr c end end.
 
+(* a release with TIMEOUT removes the allocation but keeps its request, marked allocated, for ever (removeAllocation skips
+   RemoveAllocationAsk for TIMEOUT). If the shim later sends that key again WITH a node (it holds the pod again),
+   UpdateAllocation finds the stale request, treats the message as an update of an existing allocation and answers
+   nothing: the allocation the shim reports is neither echoed nor rejected, and is not accounted *)
+Definition window_stale_request (pre : ostate) (st : ostep) : bool :=
+  match st_op st with
+  | OpAlloc r =>
+      negb (rq_foreign r) && negb (rq_node r =? 0) &&
+      match find_app pre (rq_app r) with
+      | Some a => match find_alloc (ap_requests a) (rq_key r) with
+                  | Some x => oa_allocated x && (oa_release x =? 0) && negb (memN (rq_key r) (map oa_key (ap_allocs a)))
+                  | None => false end
+      | None => false
+      end
+  | _ => false
+  end.
+
 Definition classify (pre : ostate) (st : ostep) (taint : bool) (c : N) : N :=
+  if (c =? 411) && window_stale_request pre st then 456 else
   if ((c =? 401) || (c =? 402)) && window_13 pre st then 450 else
   if ((c =? 401) || (c =? 495)) && window_dangling_swap pre st then 454 else
   if taint && taint_kind c then 455 else c.
